@@ -531,7 +531,11 @@ func runCase(r *core.Run, i int) {
 		}
 		if bad := m.adoptOrders(st.table, newAud); bad != "" {
 			r.Eval(1)
-			r.Violation("follows-precedes-misorders-triggers", wit("observed trigger order is not a linear extension of the declared partial order: "+bad, map[string]any{"audit": fmtAud(newAud)}))
+			sig := "trigger-order-violates-creation-order"
+			if m.groupHasClause(bad) {
+				sig = "follows-precedes-misorders-triggers"
+			}
+			r.Violation(sig, wit("observed trigger order is not a linear extension of the declared partial order: "+bad, map[string]any{"audit": fmtAud(newAud)}))
 			return
 		}
 
@@ -784,7 +788,7 @@ func errText(r *core.Result) string {
 		return "panic: " + r.Panic.Value
 	}
 	if r.Err != nil {
-		return core.Clip(r.Err.Error(), 90)
+		return core.Clip(strings.Join(strings.Fields(r.Err.Error()), " "), 90)
 	}
 	return "ok"
 }
